@@ -627,3 +627,14 @@ def flag_guards(body, target_bb, prefix="display_"):
                 # bool switch: arm value 0 = false; `otherwise` = true
                 out.add((flag, False if val == 0 else True))
     return out
+
+
+def rebuild_interest_path(F, module="tracing_core::callsite::inner::"):
+    """The private function of the callsite registry that re-evaluates every callsite and republishes the max level --
+    by name if it still has the name the pinned tree gives it, else by role (the one function of the module that calls
+    LevelFilter::set_max): a rename of a private helper must not blind the rules anchored in it."""
+    if F.body(module + "rebuild_interest") is not None:
+        return module + "rebuild_interest"
+    c = [b.path for b in F.body_list if b.path.startswith(module) and "{closure" not in b.path and
+         any((t["callee"].get("path") or "").endswith("LevelFilter::set_max") for bb, t in b.calls())]
+    return c[0] if len(c) == 1 else module + "rebuild_interest"
